@@ -262,6 +262,9 @@ class World:
         self.crashes: list[dict[str, Any]] = []
         self.io_fault_commits: dict[int, str] = {}   # global commit index -> error text
         self.io_fault_stmts: dict[int, str] = {}     # global statement index -> error text
+        self.io_fault_handler_commits: dict[tuple[str, int], str] = {}   # (handler name, its k-th commit) -> error text
+        self._handler_commit_seen: dict[str, int] = {}
+        self.io_fault_pred: Callable[[Any, int], str | None] | None = None
         self.fault_after_event_n: int | None = None   # inject an I/O error right after the n-th INSERT INTO events
         self._ev_inserts = 0
         self._fault_next_on: Any = None
@@ -386,6 +389,17 @@ class World:
         if self.crash_at == (n, "before"):
             self._crash_now(n, "before")
         err = self.io_fault_commits.pop(n, None)
+        if self.io_fault_handler_commits:
+            # targeted variant: the k-th commit made while handling a message of a given type
+            hd = self.ctx.get(self.current_worker(), ("idle", ""))[0]
+            for key in [k for k in self.io_fault_handler_commits if k[0] == hd]:
+                self._handler_commit_seen[hd] = self._handler_commit_seen.get(hd, 0) + 1
+                break
+            hit = (hd, self._handler_commit_seen.get(hd, 0))
+            if hit in self.io_fault_handler_commits:
+                err = self.io_fault_handler_commits.pop(hit)
+        if self.io_fault_pred is not None and err is None:
+            err = self.io_fault_pred(self, n)       # a check-specific, state-dependent commit fault
         if self._fault_next_on is conn:
             self._fault_next_on = None
             err = "disk I/O error"
